@@ -102,6 +102,8 @@ def ev(e, env, int_result_types=()):
         nm, q, recv, kind = astx.callee(e)
         qual = (e["f"].get("qual") or "") + (q or "")
         args = [ev(a, env) for a in e["a"]]
+        if nm == "is_constant_evaluated" and not args:
+            return True          # the constant-evaluation path is the one being evaluated
         if nm in BUILTINS and len(args) == BUILTINS[nm][0]:
             return BUILTINS[nm][1](*[float(a) for a in args])
         if nm in LIMITS and not args and "numeric_limits" in ((e["f"].get("qual") or "") + (q or "")):
